@@ -646,6 +646,14 @@ def elementwise_divide(x, y, eps=1e-12, starting_tensor=None, nswp=50, kick=4, l
         raise InvalidArguments("Invalid preconditioner.")
     if starting_tensor is not None and isinstance(x, torchtt._tt_base.TT) and (starting_tensor.is_ttm != x.is_ttm or starting_tensor.N != x.N or (x.is_ttm and starting_tensor.M != x.M)):
         raise ShapeMismatch('The starting tensor must have the shape of the operands.')
+    if not isinstance(x, torchtt._tt_base.TT):
+        # scalar numerator (documented: float, int, torch.tensor with one element): the constant tensor of the shape of y
+        if isinstance(x, (int, float)) or (tn.is_tensor(x) and x.numel() == 1):
+            cores_x = [tn.ones((1, n, 1), dtype=y.cores[0].dtype, device=y.cores[0].device) for n in y.N]
+            cores_x[0] = cores_x[0] * x
+            x = torchtt._tt_base.TT(cores_x)
+        else:
+            raise InvalidArguments('The first operand must be a TT tensor, int, float or a torch.tensor with one element.')
     cores_new = amen_divide(y, x, nswp, starting_tensor, eps, rmax=1000, kickrank=kick,
                             local_iterations=local_iterations, resets=resets, verbose=verbose, preconditioner=preconditioner)
     return torchtt._tt_base.TT(cores_new)
